@@ -739,6 +739,11 @@ def build_raw(spec):
         if dim not in coords and dim not in data_vars:
             coords[dim] = ([dim], numpy.array(labels, dtype=numpy.int64), {})
 
+    for dim, size in (spec.get("coord_only_dims") or {}).items():
+        # a dimension that only a coordinate variable uses (a list of station labels, say)
+        if dim not in dim_sizes(spec):
+            coords[dim + "_label"] = ([dim], numpy.arange(100, 100 + size, dtype=numpy.int64), {})
+
     order = spec.get("var_order")
     if order:
         data_vars = {k: data_vars[k] for k in order if k in data_vars} | data_vars
